@@ -129,6 +129,16 @@ type World struct {
 	applySeq int
 	mu       sync.Mutex
 	TagFn    func(task string) interface{}
+	GetLog   []GetRec // point reads of keys outside the data layout (lock, compaction record)
+}
+
+// GetRec is one point read observed at the seam.
+type GetRec struct {
+	Node int
+	Key  string
+	Val  []byte
+	Err  string
+	Step uint64
 }
 
 func NewWorld(s *rt.Sched, inner storage.KvStorage, lazy bool) *World {
@@ -332,6 +342,15 @@ func (h *Handle) Get(ctx context.Context, key []byte) ([]byte, error) {
 		return nil, ErrInjected
 	}
 	v, err := h.W.Inner.Get(ctx, key)
+	if _, _, ok := DecodeKey(key); !ok {
+		g := GetRec{Node: h.Node, Key: string(key), Val: append([]byte(nil), v...), Step: h.W.S.StepNo()}
+		if err != nil {
+			g.Err = err.Error()
+		}
+		h.W.mu.Lock()
+		h.W.GetLog = append(h.W.GetLog, g)
+		h.W.mu.Unlock()
+	}
 	h.yield("kv.get.ret", key)
 	return v, err
 }
